@@ -184,8 +184,12 @@ def install_seams():
     _installed = True
 
 
+def _wall_alarm(signum, frame):
+    raise SimLimit("wall-clock limit: the code under simulation keeps the CPU without ever yielding to the event loop")
+
+
 def run_sim(main, *, salt=0, wall_offset=1_700_000_000.0, max_steps=5_000_000, max_vtime=None,
-            late_seed=None, late_prob=0.0, late_max=0.0):
+            late_seed=None, late_prob=0.0, late_max=0.0, wall_limit=60):
     """Run coroutine function main(loop) to completion on a fresh SimLoop.
 
     Everything the run can observe is a function of (main, salt, late_seed...).
@@ -207,9 +211,21 @@ def run_sim(main, *, salt=0, wall_offset=1_700_000_000.0, max_steps=5_000_000, m
     _prod_ctr = 0
     _active = loop
     asyncio.set_event_loop(loop)
+    # a step cap cannot bound a loop that never awaits: a real-time alarm turns such a hang into a reportable SimLimit
+    # (wall time is only a safety net here, it never influences a run that ends)
+    import signal
+    import threading
+    armed = False
+    if wall_limit and threading.current_thread() is threading.main_thread():
+        old_handler = signal.signal(signal.SIGALRM, _wall_alarm)
+        signal.setitimer(signal.ITIMER_REAL, wall_limit)
+        armed = True
     try:
         return loop.run_until_complete(main(loop))
     finally:
+        if armed:
+            signal.setitimer(signal.ITIMER_REAL, 0)
+            signal.signal(signal.SIGALRM, old_handler)
         _active = None
         asyncio.set_event_loop(None)
         try:
